@@ -150,14 +150,15 @@ type ttmlDoc struct {
 }
 
 type ttmlRendering struct {
-	Indent     string `json:"indent"`      // "" = single line; otherwise elements on their own lines
-	PIndent    bool   `json:"p_indent"`    // put each child of <p> on its own line (only when every run is a span)
-	StylePfx   string `json:"style_pfx"`   // "tts", "s", "" (unprefixed)
-	XMLID      bool   `json:"xml_id"`      // xml:id vs id
-	Decl       bool   `json:"decl"`        // <?xml ...?>
-	NumericRef int    `json:"numeric_ref"` // 0 named entities, 1 decimal refs, 2 hex refs
-	BrInSpan   bool   `json:"br_in_span"`  // merge a line break between two identically styled spans into one span holding <br/>
-	BrEdge     bool   `json:"br_edge"`     // put the <br/> of a line break as first child of the following span
+	Indent     string `json:"indent"`               // "" = single line; otherwise elements on their own lines
+	PIndent    bool   `json:"p_indent"`             // put each child of <p> on its own line (only when every run is a span)
+	AnonBreak  bool   `json:"anon_break,omitempty"` // the source line ends right after text written directly in <p> (before a span, a <br/> or </p>)
+	StylePfx   string `json:"style_pfx"`            // "tts", "s", "" (unprefixed)
+	XMLID      bool   `json:"xml_id"`               // xml:id vs id
+	Decl       bool   `json:"decl"`                 // <?xml ...?>
+	NumericRef int    `json:"numeric_ref"`          // 0 named entities, 1 decimal refs, 2 hex refs
+	BrInSpan   bool   `json:"br_in_span"`           // merge a line break between two identically styled spans into one span holding <br/>
+	BrEdge     bool   `json:"br_edge"`              // put the <br/> of a line break as first child of the following span
 	TwoDivs    bool   `json:"two_divs"`
 	BrLong     bool   `json:"br_long"` // <br></br> instead of <br/>
 	EOL        string `json:"eol"`
@@ -381,6 +382,9 @@ func renderTTML(d ttmlDoc, r ttmlRendering) []byte {
 					spanOpen, cur = true, run
 				} else {
 					sb.WriteString(xmlEscapeText(run.Text, r.NumericRef))
+					if r.AnonBreak && r.Indent != "" && (ri == len(l)-1 || l[ri+1].Span) {
+						nl(4)
+					}
 				}
 			}
 		}
@@ -873,6 +877,9 @@ func genTTMLDoc(t *rapid.T, write bool) ttmlDoc {
 				run := ttmlRun{Text: genText(t, ttmlTextOpts), Span: true}
 				if !write && rapid.IntRange(0, 3).Draw(t, "anon") == 0 {
 					run.Span = false
+					if rapid.IntRange(0, 2).Draw(t, "trailingblank") == 0 {
+						run.Text += " "
+					}
 				}
 				if run.Span {
 					run.Attrs = genAttrs(t, "pa", 2)
@@ -928,6 +935,7 @@ func genTTMLRendering(t *rapid.T) ttmlRendering {
 		BrEdge:     rapid.IntRange(0, 3).Draw(t, "bredge") == 0,
 		TwoDivs:    rapid.IntRange(0, 3).Draw(t, "twodivs") == 0,
 		BrLong:     rapid.IntRange(0, 3).Draw(t, "brlong") == 0,
+		AnonBreak:  rapid.IntRange(0, 2).Draw(t, "anonbreak") == 0,
 		EOL:        rapid.SampledFrom([]string{"\n", "\n", "\r\n"}).Draw(t, "eol"),
 	}
 }
